@@ -179,6 +179,7 @@ func (w *World) init(over map[string]int) {
 		TraceFull: w.cfg("trace") != 0,
 	}
 	scfg.HB = w.cfg("hb") != 0
+	scfg.TrackAlloc = w.cfg("hb") != 0
 	if w.cfg("fifo_senders") != 0 {
 		scfg.FIFOSubstr = ".outbox/go"
 	}
